@@ -16,6 +16,14 @@ def collect(h):
         raise h.Missing(f"{rel}: cannot locate the positive fill branch of Get")
     items.append(("cache_positive_fill_guarded", "bool", "true" if "alreadyCached" in m.group(1) else "false", rel + " Get: positive fill"))
 
+    body = h.func_body(rel, r"^func \(s \*cachedAppStorage\) TTLGet\(", "cache TTLGet")
+    m = re.search(r"if err == nil && !ok \{(.*?)\n\t\}", body, re.S)
+    if not m:
+        raise h.Missing(f"{rel}: cannot locate the negative fill of TTLGet")
+    blk = m.group(1)
+    guarded = bool(re.search(r"alreadyCached\s*:=\s*s\.cache\.HasGet\(", blk) and re.search(r"if\s+!alreadyCached", blk))
+    items.append(("cache_ttlget_negative_fill_guarded", "bool", "true" if guarded else "false", rel + " TTLGet: negative fill"))
+
     body = h.func_body(rel, r"^func \(s \*cachedAppStorage\) getBatchFromStorage\(", "cache getBatchFromStorage")
     # guarded when the already-cached test precedes (covers) the positive Set
     pos_set = body.find("d.ToBytes()")
